@@ -174,12 +174,21 @@ pub fn reference_eval_with(f: &P, inputs: &[u64], interp: &dyn Fn(&u8, &[u64]) -
 }
 
 pub fn check<B: StrictOps>(f: &P, loc: &mut Local) {
+    check_on::<B>(f, None, loc)
+}
+
+/// large diagrams: three patterned input vectors instead of all 4^k
+pub fn check_large<B: StrictOps>(f: &P, loc: &mut Local) {
+    check_on::<B>(f, Some(3), loc)
+}
+
+fn check_on<B: StrictOps>(f: &P, patterned: Option<u64>, loc: &mut Local) {
     let class = classify(f);
     let case = || json!({"diagram": f, "class": format!("{:?}", class), "backend": B::NAME});
     let k = f.s.len();
-    let vectors: u64 = if class == Class::Functional { 4u64.pow(k as u32) } else { 1 };
+    let vectors: u64 = if class == Class::Functional { patterned.unwrap_or_else(|| 4u64.pow(k as u32)) } else { 1 };
     for vi in 0..vectors {
-        let inputs: Vec<u64> = (0..k).map(|p| (vi >> (2 * p)) & 3).collect();
+        let inputs: Vec<u64> = if patterned.is_some() { (0..k as u64).map(|p| (p * (2 * vi + 1) + vi) & 3).collect() } else { (0..k).map(|p| (vi >> (2 * p)) & 3).collect() };
         loc.trans(1);
         match B::eval(f, &inputs, &interp) {
             Err(e) => loc.violation(&format!("eval:{}", e.kind()), json!({"case": case(), "inputs": inputs, "failure": e.msg()})),
